@@ -137,7 +137,7 @@ Definition c10_required_ops : list string :=
    "isel_scalar"; "isel_list"; "isel_slice"; "isel_dict"; "sel"; "loc"; "getitem"; "getitem_slice"; "head"; "thin";
    "mean"; "sum"; "max"; "std"; "reduce"; "quantile"; "cumsum"; "cumprod"; "diff"; "shift";
    "transpose"; "T"; "rename"; "rename_dim"; "assign_coords"; "drop_vars"; "expand_dims"; "sortby"; "concat";
-   "copy_deep"; "copy_shallow"; "pipe"; "compute"].
+   "copy_deep"; "copy_shallow"; "copy_deep_data"; "copy_shallow_data"; "pipe"; "compute"].
 Definition c10_known_plain_ops : list string :=
   ["np_sin"; "np_add"; "np_maximum"; "apply_ufunc"; "where"; "where_other"; "xr_where"; "clip"; "fillna"; "astype";
    "isnull"; "rolling_mean"].
